@@ -1,4 +1,5 @@
-/-! Scratch (design phase): C20 — Declaration.__sub__ / __add__ / __iter__ as ordered sets. -/
+/-! C20 model (core Lean only): `_normalizeargs`, `Specification.interfaces` (= `Declaration.__iter__`), `__contains__`,
+`__sub__`, `__add__` as ordered sets. -/
 namespace ZI.Decl
 abbrev Id := Nat
 
@@ -115,6 +116,60 @@ theorem add_keeps_order (ext : Id → Id → Bool) (A B : List Id) (hA : A.Nodup
   rw [e]
   exact (List.sublist_append_left A after).trans (List.sublist_append_right before _)
 
-#print axioms add_spec
 example : add (fun i j => i == j || (i == 3 && j == 1)) [1, 2] [3, 4, 2] = [3, 1, 2, 4] := by decide
+
+/-! ### building declarations from nested arguments -/
+/-- what ends up in `__bases__`: an interface or a class specification (`implementedBy(cls)`) -/
+inductive Atom | iface (i : Id) | impl (c : Id)
+deriving DecidableEq, Repr
+
+/-- a constructor argument: an interface, a class specification, a nested tuple/list, or a plain `Declaration` -/
+inductive Arg
+  | iface (i : Id)
+  | impl (c : Id)
+  | seq (l : List Arg)
+  | decl (l : List Arg)
+deriving Repr
+
+/-- the interfaces of a class specification (declared then inherited, first occurrence wins), given by the world -/
+abbrev Expand := Id → List Id
+
+def expandAtom (ex : Expand) : Atom → List Id
+  | .iface i => [i]
+  | .impl c => ex c
+
+/-- `Specification.interfaces()` of a declaration with these bases -/
+def interfaces (ex : Expand) (atoms : List Atom) : List Id := dedupe [] (atoms.flatMap (expandAtom ex))
+
+mutual
+/-- `_normalizeargs`: interfaces and class specifications are kept, everything else is iterated (a plain `Declaration`
+iterates as its `interfaces()`) -/
+def normalize (ex : Expand) : Arg → List Atom
+  | .iface i => [.iface i]
+  | .impl c => [.impl c]
+  | .seq l => normalizeList ex l
+  | .decl l => (interfaces ex (normalizeList ex l)).map Atom.iface
+def normalizeList (ex : Expand) : List Arg → List Atom
+  | [] => []
+  | a :: rest => normalize ex a ++ normalizeList ex rest
+end
+
+/-- `Declaration(*args)` then `list(...)` -/
+def iterDecl (ex : Expand) (args : List Arg) : List Id := interfaces ex (normalizeList ex args)
+
+mutual
+/-- the in-place flattening the statement speaks of: every interface named anywhere in the arguments, left to right,
+class specifications replaced by their (declared then inherited) interfaces -/
+def flat (ex : Expand) : Arg → List Id
+  | .iface i => [i]
+  | .impl c => ex c
+  | .seq l => flatList ex l
+  | .decl l => flatList ex l
+def flatList (ex : Expand) : List Arg → List Id
+  | [] => []
+  | a :: rest => flat ex a ++ flatList ex rest
+end
+
+/-- `Declaration.__contains__`: `self.extends(interface) and interface in self.interfaces()` -/
+def contains (implied : Id → Bool) (ifaces : List Id) (i : Id) : Bool := implied i && ifaces.contains i
 end ZI.Decl
